@@ -14,10 +14,14 @@
 (*            "SK"  Skeleton.create_lattice on the contours whose raw mesh     *)
 (*                  (built by the harness) is the previous mesh                *)
 (*          judged by Consistent(mesh); a raise is C09.raised.                 *)
-(* Known-finding matcher: KF_ContractionChain - generate_mesh with             *)
-(* replace_short_edges refuses (SegmentationArtifactException, ValueError,     *)
-(* IndexError) a mesh in which two contractible two-point interfaces share an  *)
-(* end (Resample.tla R6); matched on the mesh the call was applied to.         *)
+(* Known-finding matchers (each evaluated on the mesh the failing operation was *)
+(* applied to, per failing clause):                                            *)
+(*   KF_ContractionChain  generate_mesh / join_two_vertices refuse a mesh in   *)
+(*       which two contractible two-point interfaces share an end (R6)         *)
+(*   KF_LensContraction   contraction of (a, b) while a cell contains a and b  *)
+(*       not next to each other                                                *)
+(*   KF_TriangleRemoval   the skeleton parser's "triangles in the middle" step *)
+(* Premises (rejected inputs): Proper, LoopNe1, TessPremiseFails, SKPremise.   *)
 EXTENDS Resample, TraceKit
 
 VARIABLES l, stk            \* stk[d + 1] = mesh at depth d on the current path
